@@ -879,15 +879,73 @@ func reachableFromWithout(from *ssa.BasicBlock, cut map[[2]*ssa.BasicBlock]bool,
 		b   *ssa.BasicBlock
 		key string
 	}
+	// phis that are compared with nil: their incoming value is tracked along the path
+	nilPhis := map[*ssa.Phi]bool{}
+	for _, b := range fn.Blocks {
+		if c, _ := condOf(b); c != nil {
+			if bo, ok := c.(*ssa.BinOp); ok && (bo.Op == token.EQL || bo.Op == token.NEQ) {
+				if k, ok := bo.Y.(*ssa.Const); ok && k.IsNil() {
+					if ph, ok := bo.X.(*ssa.Phi); ok {
+						nilPhis[ph] = true
+					}
+				}
+			}
+		}
+	}
+	nilness := func(v ssa.Value) (bool, bool) { // (isNil, known)
+		switch x := v.(type) {
+		case *ssa.Const:
+			return x.IsNil(), true
+		case *ssa.MakeInterface:
+			return false, true
+		}
+		return false, false
+	}
 	seen := map[state]bool{}
-	var dfs func(b *ssa.BasicBlock, asg map[ssa.Value]bool, first bool) bool
-	dfs = func(b *ssa.BasicBlock, asg map[ssa.Value]bool, first bool) bool {
+	var dfs func(b, prev *ssa.BasicBlock, asg map[ssa.Value]bool, pv map[*ssa.Phi]ssa.Value, first bool) bool
+	dfs = func(b, prev *ssa.BasicBlock, asg map[ssa.Value]bool, pv map[*ssa.Phi]ssa.Value, first bool) bool {
 		if b == target && !first {
 			return true
+		}
+		// phi values on entry
+		if prev != nil && len(nilPhis) > 0 {
+			var changed map[*ssa.Phi]ssa.Value
+			for _, ins := range b.Instrs {
+				ph, ok := ins.(*ssa.Phi)
+				if !ok {
+					break
+				}
+				if !nilPhis[ph] {
+					continue
+				}
+				for i, p := range b.Preds {
+					if p == prev {
+						if changed == nil {
+							changed = map[*ssa.Phi]ssa.Value{}
+							for k, v := range pv {
+								changed[k] = v
+							}
+						}
+						e := ph.Edges[i]
+						if inner, ok := e.(*ssa.Phi); ok {
+							if iv, ok := pv[inner]; ok {
+								e = iv
+							}
+						}
+						changed[ph] = e
+					}
+				}
+			}
+			if changed != nil {
+				pv = changed
+			}
 		}
 		var ks []string
 		for v, t := range asg {
 			ks = append(ks, fmt.Sprintf("%s=%v", v.Name(), t))
+		}
+		for ph, v := range pv {
+			ks = append(ks, fmt.Sprintf("%s:=%s", ph.Name(), v.Name()))
 		}
 		sort.Strings(ks)
 		st := state{b, strings.Join(ks, ",")}
@@ -896,8 +954,31 @@ func reachableFromWithout(from *ssa.BasicBlock, cut map[[2]*ssa.BasicBlock]bool,
 		}
 		seen[st] = true
 		c, neg := condOf(b)
+		// nil test on a tracked phi
+		forced := -1
+		if bo, ok := c.(*ssa.BinOp); ok && (bo.Op == token.EQL || bo.Op == token.NEQ) {
+			if k, ok := bo.Y.(*ssa.Const); ok && k.IsNil() {
+				if ph, ok := bo.X.(*ssa.Phi); ok {
+					if v, ok := pv[ph]; ok {
+						if isNil, known := nilness(v); known {
+							condTrue := (bo.Op == token.EQL) == isNil
+							if neg {
+								condTrue = !condTrue
+							}
+							forced = 1
+							if condTrue {
+								forced = 0
+							}
+						}
+					}
+				}
+			}
+		}
 		for i, s := range b.Succs {
 			if cut[[2]*ssa.BasicBlock{b, s}] {
+				continue
+			}
+			if forced >= 0 && i != forced {
 				continue
 			}
 			next := asg
@@ -908,7 +989,6 @@ func reachableFromWithout(from *ssa.BasicBlock, cut map[[2]*ssa.BasicBlock]bool,
 						continue // contradicts an earlier branch on the same value
 					}
 				} else {
-					// a phi condition may be redefined on a later loop iteration: only track values not defined in a loop header
 					next = map[ssa.Value]bool{}
 					for k, v := range asg {
 						next[k] = v
@@ -919,13 +999,13 @@ func reachableFromWithout(from *ssa.BasicBlock, cut map[[2]*ssa.BasicBlock]bool,
 			if s == target {
 				return true
 			}
-			if dfs(s, next, false) {
+			if dfs(s, b, next, pv, false) {
 				return true
 			}
 		}
 		return false
 	}
-	return dfs(from, map[ssa.Value]bool{}, true)
+	return dfs(from, nil, map[ssa.Value]bool{}, map[*ssa.Phi]ssa.Value{}, true)
 }
 
 // defBlock: the block after which v is available (entry for parameters and constants).
